@@ -187,6 +187,7 @@ def main():
                 rep["exhaustive"] = rep["exhaustive"] and part.get("exhaustive", True)
                 rep["samples"] += part.get("samples", [])
                 rep["spaces"] += part.get("spaces", [])
+                rep["spaces_cut"] = rep.get("spaces_cut", []) + part.get("spaces_cut", [])
                 rep["violations"] += part.get("violations", [])
                 for k, v in part.get("counters", {}).items():
                     rep["counters"][k] = max(rep["counters"].get(k, 0), v) if k.startswith("max_") else rep["counters"].get(k, 0) + v
@@ -199,6 +200,9 @@ def main():
             for s_ in rep.get("spaces", []):
                 if s_ not in merged["spaces"]:
                     merged["spaces"].append(s_)
+            for s_ in rep.get("spaces_cut", []):
+                if s_ not in merged.setdefault("spaces_cut", []):
+                    merged["spaces_cut"].append(s_)
             for k, v in rep.get("counters", {}).items():
                 if k.startswith("max_"):
                     merged["counters"][k] = max(merged["counters"].get(k, 0), v)
@@ -274,6 +278,10 @@ def main():
                     "evaluations": merged["evaluations"], "distinct_nontrivial": merged["nontrivial"]})
     else:
         cov.update({"evaluations": merged["evaluations"], "distinct_nontrivial": merged["nontrivial"]})
+    # a space is complete when no slice reported that the deadline (or a cap) interrupted it
+    cut = merged.get("spaces_cut", [])
+    cov["spaces_cut_by_deadline"] = cut
+    cov["spaces_completed"] = len([s_ for s_ in merged["spaces"] if s_ not in cut])
     cov.update(post_cov)
     if "extra_coverage" in chk:
         cov.update(chk["extra_coverage"](tier, merged))
